@@ -33,6 +33,20 @@ def references():
     return refs
 
 
+LIN = {"lin1": 1, "lin2": 2, "lin3": 3}     # formula kernels (harness/cxx2lin.py): the specialised branches of linear.hpp
+
+
+def _translate(k):
+    if k in LIN:
+        from harness import cxx2lin
+        return cxx2lin.translate(str(C.REPO), LIN[k]), {"scalars": [], "arrays": []}
+    return X.translate(str(C.REPO), k)
+
+
+def _where(k):
+    return f"backend/transformer/linear.hpp at(), {LIN[k]}-D branch" if k in LIN else _where(k)
+
+
 def status(ctx, corr, kernels):
     """-> {kernel: {"state": identical|differs|untranslatable, "sexp": ..., "names": ..., "why": ...}}"""
     refs = references()
@@ -40,10 +54,10 @@ def status(ctx, corr, kernels):
     for k in kernels:
         ob = f"translated_{k}"
         try:
-            sexp, names = X.translate(str(C.REPO), k)
+            sexp, names = _translate(k)
         except X.Untranslatable as e:
             res[k] = {"state": "untranslatable", "why": str(e)[:200]}
-            corr.add_obl(ob, 1, 1, f"the source text of {X.KERNELS[k][1]} is outside the translator's subset ({str(e)[:120]}): "
+            corr.add_obl(ob, 1, 1, f"the source text of {_where(k)} is outside the translator's subset ({str(e)[:120]}): "
                                    "tie through translation lost, behavioural tie decides")
             continue
         if k not in refs:
@@ -55,7 +69,7 @@ def status(ctx, corr, kernels):
             corr.add_obl(ob, 1, 0)
         else:
             res[k] = {"state": "differs", "sexp": sexp, "names": names}
-            corr.add_obl(ob, 1, 1, f"the translation of {X.KERNELS[k][1]} differs from the term the theorems are about: "
+            corr.add_obl(ob, 1, 1, f"the translation of {_where(k)} differs from the term the theorems are about: "
                                    "tie through translation lost, behavioural tie decides")
     corr.info["translation"] = {k: (v["state"] + (": " + v["why"] if "why" in v else "")) for k, v in res.items()}
     changed = [k for k, v in res.items() if v["state"] != "identical"]
